@@ -1,4 +1,5 @@
 import PepperProofs.Des
+import PepperProofs.LoadInvDes
 /-!
 # C03 — the NUPACK `.des` output is constraint-equivalent to the source program
 
@@ -17,6 +18,23 @@ structures of the components; per signal one domain `S` and the `equals` entry `
 Tie to the code (harness/props/c03.py, every run): an independent reader of the implementation's `.des`
 text gives exactly `desDoc` of the model; `BlocksOk` holds for the model's instance tree of every accepted
 program; `designOf inst` is the design `Denote.denoteTop` assigns to the source.
+
+Which hypotheses are discharged by theorem and which remain evaluated per run:
+* **M1, `BlocksOk (blocksInst inst)` — discharged** (`blocksOk_of_load`, from `PepperProofs/LoadInvDes.lean`): it
+  holds for whatever `Sys.loadFile` returns, for bundles satisfying `DesNamesOk`: component sources with user
+  names in their statements (`StmtNamesOk`, the statement part of C01's `UserNamesOk`) and pairwise distinct
+  sequences in the declaration (`PortsDistinct`); system sources with instance and signal names without `-`, no
+  signal named like an instance of the same system, pairwise distinct signals in the declaration
+  (`SysNamesOk`).  Every one of these is needed for a name clause of `BlocksOk` — counterexample programs at
+  `LoadInv.SysNamesOk` / `LoadInv.PortsDistinct`; they are collisions in the real `.des` text, too.  Sequence,
+  strand and structure names may contain `-`.  The driver still evaluates `BlocksOk` per run (`tables_ok`); for
+  sources satisfying `DesNamesOk` this is now a redundant cross-check.
+* **M2 for one component — discharged** (`des_equiv_component_of_load`): the document of a loaded component has
+  exactly the solutions of the design `Denote.denoteComp` assigns to the *source* (C01's
+  `compile_preserves_design` closes the gap between the tables and the source).
+* **M2 for systems — remains a hypothesis** of `des_equiv_of_load_partial` (`designOf inst` has the solutions of
+  the design `Denote.denoteTop` assigns to the source): this is C02's `system_preserves_design`, proved so far
+  as `system_preserves_design_partial`; evaluated per run (`Des.designOf` against `denoteTop`).
 -/
 namespace Pepper.C03
 open Pepper Pepper.Comp Pepper.Sys Pepper.LinkSpec Pepper.Des
@@ -69,13 +87,13 @@ theorem lists_every_structure_component (st : Comp.St) (hn : (st.structs.map (·
     contribute nothing on either side (`cnucs_filter`). -/
 theorem positions_agree (inst : Inst) (ok : BlocksOk (blocksInst inst)) (st : Comp.St)
     (hb : Block.comp st ∈ blocksInst inst) (e : StructE) (he : e ∈ st.structs) :
-    desPositions (desDoc inst) (st.pfx ++ e.name) = cnucs st.pfx e.bases ∧
-    designPositions (designOf inst) (st.pfx ++ e.name) = cnucs st.pfx e.bases :=
+    desPositions (desDoc inst) (st.pfx ++ e.name) = Des.cnucs st.pfx e.bases ∧
+    designPositions (designOf inst) (st.pfx ++ e.name) = Des.cnucs st.pfx e.bases :=
   positions_blocks ok hb he
 
 /-- zero-length base sequences contribute no position -/
 theorem positions_skip_dummies (p : String) (bs : List BaseRef) :
-    cnucs p (bs.filter (·.len != 0)) = cnucs p bs := cnucs_filter p bs
+    Des.cnucs p (bs.filter (·.len != 0)) = Des.cnucs p bs := Des.cnucs_filter p bs
 
 /-! ### 3. the signal connector forces exactly the source's `equals` entry -/
 
@@ -175,12 +193,71 @@ theorem des_equiv_component (st : Comp.St) (ok : BlocksOk [Block.comp st]) (tbl 
       rw [hd] at hp
       simp only
       rw [hp]
-      have hsD : (⟨st.pfx ++ e.name, e.strands.map (st.pfx ++ ·), e.struct, optOfDec e.opt⟩ : StructD) ∈
+      have hsD : (⟨st.pfx ++ e.name, e.strands.map (st.pfx ++ ·), e.struct, Des.optOfDec e.opt⟩ : StructD) ∈
           (designOfBlocks [Block.comp st]).structs := by
         rw [hD]; exact List.mem_map.2 ⟨e, he, rfl⟩
       have := hs.pair _ hsD
       rw [structNucs_comp ok hb he] at this
       exact pairSat_iff.2 this
+
+/-! ### 5. the same, for whatever `load` / `loadFile` returns -/
+
+section of_load
+open Pepper.LoadInv
+
+/-- **M1, discharged**: the instance tree of every successful `loadFile` — from a bundle whose sources satisfy
+    the name hypotheses `DesNamesOk` — satisfies `BlocksOk` -/
+theorem blocksOk_of_load {b : Bundle} (hb : DesNamesOk b) {fuel : Nat} {base : String} {args : Nat}
+    {argKey pfx path : String} {includes : List String} {anon : Nat} {inst : Inst} {a' : Nat}
+    (hload : Sys.loadFile b fuel base args argKey pfx path includes anon = .ok (inst, a')) :
+    BlocksOk (blocksInst inst) :=
+  loadFile_blocksOk hb hload
+
+/-- **`des_equiv` for one component, fully closed.**  For every component source the compiler accepts (with
+    C01's hypotheses: `UserNamesOk`, `CodesOk tbl`): the specification `Denote.denoteComp` accepts the source,
+    and an assignment satisfies the emitted `.des` document **iff** it satisfies the design the *source*
+    denotes.  No hypothesis on the tables: `BlocksOk` comes from `LoadInv.comp_blocksOk`, the step from the
+    tables to the source from C01 (`Comp.compile_preserves` + `Comp.emit_sound`). -/
+theorem des_equiv_component_of_load (tbl : CodeTable) {src : Comp.Src} {n : Nat} {pfx : String} {a : Nat}
+    {st : Comp.St} {a' : Nat} (hload : Comp.load src n pfx a = .ok (st, a'))
+    (hnames : UserNamesOk src = true) (hcodes : CodesOk tbl src = true) :
+    ∃ o ports, Denote.denoteComp src pfx a = .ok (o, ports, a') ∧
+      ∀ asg : Var → Base, SatDes tbl (compDoc st) asg ↔ Des.Sat tbl (o.design []) asg := by
+  obtain ⟨o, ports, hden, hsat⟩ := comp_sat_iff tbl hload hnames hcodes
+  refine ⟨o, ports, hden, fun asg => ?_⟩
+  exact (des_equiv_component st (comp_blocksOk hload (stmtNamesOk_of_user hnames)) tbl asg).trans (hsat asg)
+
+/-- the document forces no fewer and no more constraints than the tables of a loaded tree (`des_no_fewer`,
+    `des_no_more` without the `BlocksOk` hypothesis) -/
+theorem des_no_fewer_no_more_of_load {b : Bundle} (hb : DesNamesOk b) {fuel : Nat} {base : String} {args : Nat}
+    {argKey pfx path : String} {includes : List String} {anon : Nat} {inst : Inst} {a' : Nat}
+    (hload : Sys.loadFile b fuel base args argKey pfx path includes anon = .ok (inst, a')) (tbl : CodeTable)
+    (hN : ∀ b, allows tbl 'N' b) (a : Var → Base) :
+    (SatDes tbl (desDoc inst) a → Des.Sat tbl (designOf inst) a) ∧
+    (Des.Sat tbl (designOf inst) a → SatDes tbl (desDoc inst) (fixW (blocksInst inst) a) ∧
+      ∀ q ∈ (designOf inst).domains, ∀ k, fixW (blocksInst inst) a ⟨q.1, k⟩ = a ⟨q.1, k⟩) :=
+  ⟨des_no_fewer inst (blocksOk_of_load hb hload) tbl a, des_no_more inst (blocksOk_of_load hb hload) tbl hN a⟩
+
+/-- **`des_equiv` for instance trees (PARTIAL: M1 discharged, M2 a hypothesis).**  For every bundle satisfying
+    `DesNamesOk`, every tree `loadFile` returns for it, every code table in which `N` allows every base and every
+    design `d` with the same solutions as the design of the tables (`hM2`; for the design `d` that
+    `Denote.denoteTop` assigns to the source this is C02's `system_preserves_design`, proved so far only as
+    `system_preserves_design_partial`): an assignment `a` of the program's own domain variables extends to the
+    signal and auxiliary sequences so as to satisfy the document **iff** it extends to the signal sequences so
+    as to satisfy `d`. -/
+theorem des_equiv_of_load_partial {b : Bundle} (hb : DesNamesOk b) {fuel : Nat} {base : String} {args : Nat}
+    {argKey pfx path : String} {includes : List String} {anon : Nat} {inst : Inst} {a' : Nat}
+    (hload : Sys.loadFile b fuel base args argKey pfx path includes anon = .ok (inst, a')) (tbl : CodeTable)
+    (hN : ∀ b, allows tbl 'N' b) (d : Design) (hM2 : ∀ asg, Des.Sat tbl (designOf inst) asg ↔ Des.Sat tbl d asg)
+    (a : Var → Base) :
+    (∃ a', (∀ v : Var, v.dom ∈ progDomains inst → a' v = a v) ∧ SatDes tbl (desDoc inst) a') ↔
+    (∃ a'', (∀ v : Var, v.dom ∈ progDomains inst → a'' v = a v) ∧ Des.Sat tbl d a'') := by
+  rw [des_equiv_partial inst (blocksOk_of_load hb hload) tbl hN a]
+  constructor
+  · rintro ⟨a'', h1, h2⟩; exact ⟨a'', h1, (hM2 a'').1 h2⟩
+  · rintro ⟨a'', h1, h2⟩; exact ⟨a'', h1, (hM2 a'').2 h2⟩
+
+end of_load
 
 /-- in the generated DNA table `N` allows every base (hypothesis `hN` above) -/
 theorem dna_N_allows_all : ∀ b, allows Generated.dnaTable 'N' b := by
@@ -224,6 +301,26 @@ example : (desDoc exSys).map Line.render = Sys.emitDesInst exSys := by decide
 /-- the hypotheses of the theorems hold for it -/
 example : BlocksOk (blocksInst exSys) := by decide
 example : wellFormed (desDoc exSys) = true := by decide
+
+/-- the name hypotheses of `blocksOk_of_load` are satisfiable: the sources of `exSys` -/
+def exTopSrc : SSrc :=
+  { name := "top", params := [], inputs := [], outputs := [⟨"q", false⟩],
+    stmts := [.imports [("T", none)], .component "a" "T" 0 [] [⟨"q", false⟩], .component "b" "T" 0 [] [⟨"q", true⟩]] }
+def exTSrc : Comp.Src :=
+  { name := "T", params := [], inputs := [], outputs := [⟨"x", false, none⟩],
+    stmts := [.seq "x" [.nuc "2N".toList] none, .seq "y" [.nuc "S N".toList] none, .seq "z" [.nuc "".toList] none,
+              .strand false "s1" [.ref "x" false] none, .strand false "s2" [.ref "y" true, .ref "z" false] none,
+              .struct .default "d" ["s1", "s2"] false "((+))".toList] }
+example : LoadInv.SysNamesOk exTopSrc = true := by decide
+example : LoadInv.StmtNamesOk exTSrc = true ∧ LoadInv.PortsDistinct exTSrc = true := by decide +kernel
+/-- `des_equiv_component_of_load` applies to `exTSrc`: the compiler accepts it under prefix `a-`, its document is
+    that of the first instance of `exSys`, and C01's hypotheses hold -/
+example : (Comp.load exTSrc 0 "a-" 0).toOption.map (fun r => compDoc r.1) =
+    some (compDoc (exComp "a-" ⟨['1'], []⟩)) := by decide +kernel
+example : UserNamesOk exTSrc = true ∧ CodesOk Generated.dnaTable exTSrc = true := by decide +kernel
+/-- … and they are needed: a dash in an instance name, a signal named like an instance -/
+example : LoadInv.SysNamesOk { exTopSrc with stmts := [.component "a-b" "T" 0 [] []] } = false := by decide
+example : LoadInv.SysNamesOk { exTopSrc with stmts := [.component "q" "T" 0 [] [⟨"q", false⟩]] } = false := by decide
 
 /-- positions: the zero-length `z` contributes nothing, the reversed `y` is laid down as `rc` -/
 example : desPositions (desDoc exSys) "a-d" =
